@@ -12,7 +12,7 @@ from ..signatures import op_sig, close, fingerprint, fp_diff
 PROPERTY_ID = "C03"
 RULE = ("A Hypothesis RuleBasedStateMachine generates histories over one circuit workspace. Mutation rules: add an operation "
         "(any kind, relation of any type to an earlier top-level item), add a prepared sub-circuit (nested, with fixed or "
-        "registry-provided repetition count), apply_modifiers(), flatten(), DurationRegistry.set_registry_at, "
+        "registry-provided repetition count), add an operation to an already nested sub-circuit through its handle, apply_modifiers(), flatten(), DurationRegistry.set_registry_at, "
         "RepetitionRegistry.set_registry_at, enter / leave temporary_override_get_registry_at; a prepared sub-circuit may itself be "
         "observed (listed, timed, plotted, exported, copied) before it is nested. Observation rules: read "
         "operations, duration, all start/end times, acquisition indices (all three filters), to_stim, plot_circuit (compact "
@@ -87,6 +87,15 @@ class Workspace:
                 # observe the prepared sub-circuit before it is nested (an observation, skipped by the twins)
                 self._observe(sub.circuit, step["pre_obs"])
             self.handles.append(self.circuit.add(sub.circuit))
+        elif op == "add_into_sub":
+            # add an operation to a sub-circuit that is already nested, through the handle add() returned
+            subs = [h for h in self.handles if hasattr(h, "get_sub_composite_operations")]
+            if subs:
+                target = subs[step["sub"] % len(subs)]
+                it = dict(step["item"])
+                it.pop("rel", None)
+                it.pop("share", None)
+                target.add(P.make_operation(it, (5000 + len(self.handles),), (), self.circuit, [], self._built()))
         elif op == "unroll":
             self.circuit = self.circuit.apply_modifiers()
             self.unrolled = True
@@ -171,8 +180,8 @@ def diff_fp(a, b) -> Optional[str]:
     return None
 
 
-MUTATIONS = {"add_op", "add_sub", "unroll", "flatten", "set_dur", "set_rep", "enter", "leave"}
-STRONG = {"add_sub", "unroll", "flatten", "set_dur", "set_rep", "enter", "leave"}
+MUTATIONS = {"add_op", "add_sub", "add_into_sub", "unroll", "flatten", "set_dur", "set_rep", "enter", "leave"}
+STRONG = {"add_sub", "add_into_sub", "unroll", "flatten", "set_dur", "set_rep", "enter", "leave"}
 
 
 class Runner:
@@ -306,6 +315,34 @@ def sub_strategy():
     return P.program_strategy(cfg).map(lambda p: _repair(p["top"]))
 
 
+def shaped_block_strategy():
+    """A repeated block whose first element is a nested sub-circuit, followed by parallel branches with registry / global
+    durations: after unrolling, which leaf ends latest depends on the duration settings (relation heads of later copies)."""
+    from hypothesis import strategies as st
+
+    @st.composite
+    def block(draw):
+        reps = draw(st.integers(2, 3))
+        head_kind = draw(st.sampled_from(["Rx180", "Wait", "DispersiveMeasure"]))
+        head_item = {"k": head_kind, "q": [0]}
+        if head_kind == "Wait":
+            head_item.update({"ch": "ALL", "d": ["reg", draw(st.sampled_from(["k0", "k1"]))]})
+        if head_kind == "DispersiveMeasure":
+            head_item.update({"tag": "a", "reg": 0})
+        items = [{"sub": {"reps": draw(st.sampled_from([1, 1, 2])), "items": [head_item]}}]
+        for q in range(1, draw(st.integers(2, 3)) + 1):
+            kind = draw(st.sampled_from(["Wait", "Wait", "Rx180", "Reset", "VirtualPark"]))
+            it = {"k": kind, "q": [q]}
+            if kind == "Wait":
+                it.update({"ch": draw(st.sampled_from(["ALL", "MICROWAVE"])),
+                           "d": draw(st.sampled_from([["reg", "k0"], ["reg", "k1"], ["fix", 1.5], ["fix", 3.0]]))})
+            items.append(it)
+        if draw(st.booleans()):
+            items.append({"k": "Rx180", "q": [0]})
+        return {"reps": reps, "items": items}
+    return block()
+
+
 def make_machine(ctx, last):
     from hypothesis import strategies as st
     from hypothesis.stateful import RuleBasedStateMachine, rule, precondition, initialize
@@ -349,6 +386,11 @@ def make_machine(ctx, last):
                 step["pre_obs"] = pre_obs
             self._do(step)
 
+        @precondition(lambda self: any(hasattr(h, "get_sub_composite_operations") for h in self.runner.live.handles))
+        @rule(item=item_strategy(), sub=st.integers(0, 5))
+        def add_into_sub(self, item, sub):
+            self._do({"op": "add_into_sub", "item": item, "sub": sub})
+
         @rule()
         def unroll(self):
             self._do({"op": "unroll"})
@@ -359,6 +401,15 @@ def make_machine(ctx, last):
 
         @rule(key=st.sampled_from(["k0", "k1"]), v=dyadic)
         def set_dur(self, key, v):
+            self._do({"op": "set_dur", "key": key, "v": v})
+
+        @rule(circ=shaped_block_strategy(), what=st.sampled_from(["operations", "times", "plot", "duration"]),
+              key=st.sampled_from(["k0", "k1"]), v=dyadic)
+        def block_unroll_observe_change(self, circ, what, key, v):
+            """The interleaving the quantifier names: nest a repeated block, unroll, observe, change a duration."""
+            self._do({"op": "add_sub", "circ": circ})
+            self._do({"op": "unroll"})
+            self._do({"op": "obs", "what": what})
             self._do({"op": "set_dur", "key": key, "v": v})
 
         @rule(v=st.integers(1, 3))
@@ -407,5 +458,5 @@ def body_replay(case, ctx):
 
 
 def parts():
-    return [Part("histories", body_replay, strategy=make_machine, stateful=True, quick=500, thorough=1500,
+    return [Part("histories", body_replay, strategy=make_machine, stateful=True, quick=260, thorough=1200,
                  steps_quick=16, steps_thorough=30)]
